@@ -198,6 +198,10 @@ def execute(acc, case):
 
 def run_batch(b):
     acc = harness.Acc()
+    if b.get("real"):
+        from bvm import realnet
+        realnet.run_cases(acc, b["real"])
+        return acc
     for case in b["cases"]:
         execute(acc, case)
     return acc
@@ -217,13 +221,16 @@ def main(tier, seed):
                       "strategy": rng.choice(["rr", "rw"]), "p": 0.05, "rounds": 1, "flood": 0, "backlog": rng.choice([12, 24])})
     nb = 16 if q else 64
     batches = [{"cases": cases[i::nb]} for i in range(nb)]
+    # real loopback (bvm/realnet.py): bursts of DWR/CER/DPR with boundary identifiers, two connections of the same object
+    for i in range(4 if q else 16):
+        batches.append({"real": [{"kind": "base", "seed": seed * 613 + i * 17 + j, "role": ("client", "server")[(i + j) % 2]} for j in range(1 if q else 5)]})
     acc = harness.run_workers("checks.c07_base_answers", "run_batch", batches, 3400)
     harness.require_vnet_fidelity(acc)
     return harness.finish(PROP, tier, seed, "exploration", acc, RULE,
                           ["the peer is scripted by the driver task; answers are read from the bytes the node wrote to the substituted socket",
                            "identifier pairs are sampled (boundary + random), not enumerated over 2^64",
                            "emission order is decided on scheduler steps: the send() that carried the answer's last byte vs the step at which the state machine took the next inbound message"],
-                          t0, require_counters=("answers_seen", "connections", "reconnects", "ordering_checked", "backlog_cases"))
+                          t0, require_counters=("answers_seen", "connections", "reconnects", "ordering_checked", "backlog_cases", "real_loopback_ok"))
 
 
 def replay(w):
